@@ -74,10 +74,17 @@ def normalize(ops):
     # the library gets write opportunities (event_write with nothing accepted) while virtual time
     # passes before a later D:0: make that explicit for the model as a W:0 right after every D:1
     out2 = []
+    seen_choke = False
     for j, o in enumerate(out):
-        out2.append(o)
-        if o == "D:1" and not (j + 1 < len(out) and out[j + 1][0] == "W"):
+        # lifting a snub unchokes at once (since /repo d278df5 the snub keeps the peer's interest), so a
+        # D:0 after a D:1 must not have unflushed requests in front of it
+        if o == "D:0" and seen_choke and out2 and out2[-1][0] in "RC":
             out2.append("W:0")
+        out2.append(o)
+        if o == "D:1":
+            seen_choke = True
+            if not (j + 1 < len(out) and out[j + 1][0] == "W"):
+                out2.append("W:0")
     out = out2
     if not out or out[-1] != "W:inf":
         out.append("W:inf")
@@ -377,6 +384,8 @@ def oracle(case, line):
             bad.append(("piece-unverified", "PIECE %s sent for a piece that is not completed" % m))
         if not ok_pay:
             bad.append(("piece-bytes", "payload of PIECE %s differs from the verified content" % m))
+    if x.get("leak", "-") != "-":
+        bad.append(("chunk-leak", "chunk references left after the connection was closed: " + x["leak"]))
     if "trail" in f:
         bad.append(("partial-message", "connection ended inside a message"))
     return bad
